@@ -20,6 +20,8 @@ import (
 	"runtime"
 	"sort"
 	"strings"
+	"sync"
+	"sync/atomic"
 	"time"
 
 	"github.com/martian-lang/martian/martian/core"
@@ -90,8 +92,20 @@ type TAOpts struct {
 	FileHook         func(job *TAJob, param string, p string)      // called for every file a stage writes
 	ExtraFiles       bool                                          // stages also write files not named by outputs
 	FullReset        bool
-	PostProcessCrash int  // 1: crash after post-processing; 2: after the files were moved, before _outs was rewritten
+	PostProcessCrash int  // 1: crash after post-processing; 2: after the files were moved, before _outs was rewritten; 3: (--zip) after _metadata.zip was written, before any archived file was removed
 	RestartAfterFail bool // after a failure: restart once (the injected fault is gone) and continue
+	// SlowJobs: comma separated substrings of job keys; a matching job is finished only when no other
+	// job is pending and the scheduler has nothing left to do without it (directed schedules: "the
+	// producer of the condition finishes last").  "" = off (the PRNG schedule is unchanged).
+	SlowJobs string
+	// Cluster: the job manager has a queue query (cluster mode): every job gets a _jobid, mrp queries
+	// the queue at every pass, and a job with fault kind "lost" vanishes without leaving any file
+	// (killed in the scheduler's queue / node lost) — only the queue query can notice.
+	Cluster bool
+	// AgeHeartbeats: whenever no job is in flight, 61 simulated minutes pass before mrp checks heartbeats
+	// (fault kind "hang": a job that started, sent a heartbeat and then died without a trace in LOCAL
+	// mode is only ever noticed by the heartbeat timeout)
+	AgeHeartbeats bool
 }
 
 type TARun struct {
@@ -119,6 +133,9 @@ type TARun struct {
 	restartedAfterFail bool
 	ppCrashed          bool
 	stalls             int
+	slowQuiet          int
+	queueMu            sync.Mutex
+	progress           int64 // events logged so far (read by the watchdog)
 }
 
 type stderrLogger struct{}
@@ -139,6 +156,7 @@ func taInit() {
 }
 
 func (r *TARun) log(kind, job, detail string) *TAEvent {
+	atomic.AddInt64(&r.progress, 1)
 	r.Events = append(r.Events, TAEvent{Seq: len(r.Events), Kind: kind, Job: job, Detail: detail, Inc: r.Inc})
 	return &r.Events[len(r.Events)-1]
 }
@@ -153,6 +171,16 @@ func (r *TARun) newRuntime() error {
 	opts.FullStageReset = r.Opts.FullReset
 	r.jm = &core.VerifJobManager{}
 	r.jm.OnExec = r.onExec
+	if r.Opts.Cluster {
+		opts.JobMode = "verifcluster"
+		qjm := &core.VerifQueueJobManager{VerifJobManager: r.jm, OnCheckQueue: r.checkQueue}
+		rt, err := core.VerifNewQueueRuntime(&opts, qjm)
+		if err != nil {
+			return err
+		}
+		r.rt = rt
+		return nil
+	}
 	rt, err := core.VerifNewRuntime(&opts, r.jm)
 	if err != nil {
 		return err
@@ -231,7 +259,13 @@ func (r *TARun) onExec(j *core.VerifJob) {
 			t.emit("%s", l)
 		}
 	}
+	if r.Opts.Cluster && j.Metadata != nil {
+		// what RemoteJobManager does after a successful submission
+		j.Metadata.WriteRaw(core.JobId, job.Key)
+	}
+	r.queueMu.Lock()
 	r.Pending = append(r.Pending, job)
+	r.queueMu.Unlock()
 	r.Jobs = append(r.Jobs, job)
 	if r.LaunchHook != nil {
 		r.LaunchHook(job)
@@ -309,7 +343,26 @@ func (r *TARun) jobMeta(job *TAJob) *core.Metadata {
 		job.FilesPath, path.Dir(job.JournalFile), runType)
 }
 
+// checkQueue: the fake scheduler's answer to a queue query — the ids of the jobs still in flight.
+func (r *TARun) checkQueue(ids []string) []string {
+	r.queueMu.Lock()
+	defer r.queueMu.Unlock()
+	alive := map[string]bool{}
+	for _, p := range r.Pending {
+		alive[p.Key] = true
+	}
+	var out []string
+	for _, id := range ids {
+		if alive[id] {
+			out = append(out, id)
+		}
+	}
+	return out
+}
+
 func (r *TARun) removePending(job *TAJob) {
+	r.queueMu.Lock()
+	defer r.queueMu.Unlock()
 	for i, p := range r.Pending {
 		if p == job {
 			r.Pending = append(r.Pending[:i], r.Pending[i+1:]...)
@@ -393,7 +446,18 @@ func (r *TARun) finishJob(job *TAJob) {
 	if job.Done {
 		return
 	}
-	r.startJob(job)
+	lostQueued := false
+	if !job.Started {
+		for _, f := range r.Opts.Faults {
+			// a job lost while still in the scheduler's queue never starts (no _log)
+			if f.JobKey == job.Key && f.Kind == "lost" && (f.Repeat || f.used == 0) && len(job.Key)%2 == 0 {
+				lostQueued = true
+			}
+		}
+	}
+	if !lostQueued {
+		r.startJob(job)
+	}
 	job.Done = true
 	r.removePending(job)
 	md := r.jobMeta(job)
@@ -403,6 +467,14 @@ func (r *TARun) finishJob(job *TAJob) {
 		kind = fault.Kind
 	}
 	switch kind {
+	case "lost":
+		// the job vanishes: no _errors, no journal entry, its process (if any) is gone
+		job.Outcome = "fail:lost"
+	case "hang":
+		// the job sent one heartbeat, then died without a trace
+		md.WriteTime(core.Heartbeat)
+		md.UpdateJournal(core.Heartbeat)
+		job.Outcome = "fail:hang"
 	case "errors":
 		md.WriteRaw(core.Errors, "injected failure in "+job.Key)
 		md.UpdateJournal(core.Errors)
@@ -444,6 +516,8 @@ func (r *TARun) finishJob(job *TAJob) {
 	ev.Outs = job.Outs
 	if t := r.Tracer; t != nil {
 		switch {
+		case job.Outcome == "fail:lost" || job.Outcome == "fail:hang":
+			t.emit("killed %s", t.jobRef(job))
 		case job.Outcome == "fail:exit":
 			t.emit("silentfail %s", t.jobRef(job))
 			if !r.insideStep && r.ps != nil {
@@ -722,7 +796,13 @@ func (r *TARun) stepOnce() (done bool, progress bool) {
 	r.ps.RefreshState(ctx)
 	if r.Tracer != nil {
 		r.Tracer.emit("refresh")
-		r.Tracer.observe("R", nil)
+		if r.Opts.Cluster {
+			// in cluster mode RefreshState itself writes files (endRefresh: _errors for a job the queue
+			// query no longer knows): what became visible is reported as `W` (found on disk or written by mrp)
+			r.Tracer.observe("W", nil)
+		} else {
+			r.Tracer.observe("R", nil)
+		}
 	}
 	state := r.ps.GetState(ctx)
 	switch state {
@@ -740,6 +820,16 @@ func (r *TARun) stepOnce() (done bool, progress bool) {
 		if r.Opts.PostProcessCrash != 0 && !r.ppCrashed {
 			// mrp dies during / right after post-processing and is restarted
 			r.ppCrashed = true
+			if r.Opts.PostProcessCrash == 3 {
+				// mrp --zip killed right after it had written _metadata.zip: none of the archived files had
+				// been removed yet (the restarted mrp unpacks the archive over the files that are still there)
+				snap, _ := os.MkdirTemp(filepath.Dir(r.PsDir), "zipsnap")
+				copyTree(r.PsDir, snap)
+				r.rt.Config.Zip = true
+				r.ps.ZipMetadata(path.Join(r.PsDir, "_metadata.zip"))
+				copyTree(snap, r.PsDir)
+				os.RemoveAll(snap)
+			}
 			if r.Opts.PostProcessCrash == 2 && savedOuts != nil {
 				// ... after the files were moved but before _outs was rewritten
 				os.WriteFile(outsPath, savedOuts, 0o644)
@@ -765,7 +855,19 @@ func (r *TARun) stepOnce() (done bool, progress bool) {
 		r.Final = "failed"
 		return true, false
 	}
+	if r.Opts.Cluster {
+		r.ps.VerifAllowQueueCheck()
+	}
+	if r.Opts.AgeHeartbeats && len(r.Pending) == 0 {
+		r.ps.VerifAgeHeartbeats(61 * time.Minute)
+	}
 	r.ps.CheckHeartbeats(ctx)
+	if r.Opts.Cluster {
+		// the query runs in a goroutine of its own: wait for its verdict (barrier, not a sleep)
+		for i := 0; i < 2000 && !r.ps.VerifQueueCheckIdle(); i++ {
+			time.Sleep(500 * time.Microsecond)
+		}
+	}
 	r.insideStep = true
 	p := r.ps.StepNodes(ctx)
 	r.insideStep = false
@@ -799,6 +901,10 @@ func (r *TARun) killPending(surviveProb float64) {
 	for _, j := range r.Pending {
 		survive := j.Started && r.Rng.Float64() < surviveProb
 		if survive {
+			// a job that outlives mrp may have been computing quietly for hours: its `_log` is old (the
+			// age of `_log` says nothing about liveness — heartbeats go through the journal)
+			old := time.Now().Add(-3 * time.Hour)
+			os.Chtimes(path.Join(j.MetadataPath, "_log"), old, old)
 			keep = append(keep, j)
 			continue
 		}
@@ -837,6 +943,20 @@ func (r *TARun) Restart() error {
 	ctx := context.Background()
 	ps, err := r.rt.ReattachToPipestance(r.Opts.Psid, r.PsDir, r.Src, r.Opts.SrcPath,
 		r.Opts.MroPaths, "verif", nil, true, false, ctx)
+	for try := 0; err != nil && try < 3 && r.Opts.FullReset &&
+		(strings.Contains(err.Error(), "unlinkat") || strings.Contains(err.Error(), "directory not empty")); try++ {
+		// In this in-process emulation the goroutines of the "dead" mrp (e.g. `go partialVdrKill()` started
+		// when a join was submitted) are still running and may create a file in a directory the new
+		// incarnation is removing (Node.reset, FullStageReset).  A dead process has no goroutines:
+		// let them finish and re-attach again.
+		os.Remove(path.Join(r.PsDir, "_lock"))
+		time.Sleep(time.Duration(50*(try+1)) * time.Millisecond)
+		if err2 := r.newRuntime(); err2 != nil {
+			return err2
+		}
+		ps, err = r.rt.ReattachToPipestance(r.Opts.Psid, r.PsDir, r.Src, r.Opts.SrcPath,
+			r.Opts.MroPaths, "verif", nil, true, false, ctx)
+	}
 	if err != nil {
 		return fmt.Errorf("reattach: %v", err)
 	}
@@ -878,6 +998,12 @@ func (r *TARun) Run() {
 				return
 			}
 			idle = 0
+			continue
+		}
+		if r.Opts.SlowJobs != "" && len(r.Pending) > 0 {
+			if done := r.slowStep(&idle); done {
+				return
+			}
 			continue
 		}
 		doStep := len(r.Pending) == 0 || r.Rng.Float64() < r.Opts.StepBias
@@ -963,12 +1089,50 @@ func (r *TARun) RunTimed(d time.Duration) {
 		defer close(done)
 		r.Run()
 	}()
-	select {
-	case <-done:
-	case <-time.After(d):
-		buf := make([]byte, 1<<16)
-		buf = buf[:runtime.Stack(buf, true)]
-		r.Final = "hang"
-		r.ErrMsg = string(buf)
+	// the deadline is about PROGRESS, not wall-clock: on a loaded machine a healthy run is slow, but it
+	// keeps logging events (every scheduler pass is one); a hang is `d` without a single new event
+	last, lastAt := int64(-1), time.Now()
+	tick := time.NewTicker(250 * time.Millisecond)
+	defer tick.Stop()
+	for {
+		select {
+		case <-done:
+			return
+		case <-tick.C:
+			if p := atomic.LoadInt64(&r.progress); p != last {
+				last, lastAt = p, time.Now()
+			} else if time.Since(lastAt) > d {
+				buf := make([]byte, 1<<16)
+				buf = buf[:runtime.Stack(buf, true)]
+				r.Final = "hang"
+				r.ErrMsg = string(buf)
+				return
+			}
+		}
 	}
+}
+
+// copyTree copies regular files and symlinks of src into dst (existing files are overwritten).
+func copyTree(src, dst string) {
+	filepath.Walk(src, func(p string, info os.FileInfo, err error) error {
+		if err != nil {
+			return nil
+		}
+		rel, _ := filepath.Rel(src, p)
+		q := filepath.Join(dst, rel)
+		switch {
+		case info.IsDir():
+			os.MkdirAll(q, 0o755)
+		case info.Mode()&os.ModeSymlink != 0:
+			if l, err := os.Readlink(p); err == nil {
+				os.Remove(q)
+				os.Symlink(l, q)
+			}
+		case info.Mode().IsRegular():
+			if b, err := os.ReadFile(p); err == nil {
+				os.WriteFile(q, b, info.Mode().Perm())
+			}
+		}
+		return nil
+	})
 }
